@@ -465,6 +465,7 @@ type FuncSpec struct {
 	Propagates      bool
 	DeferredHandler bool
 	WorkerEnsures   []*SExpr
+	Local           map[*SExpr]bool // postconditions not exported to other callers (clause `proves`)
 	ChanNonNil      bool
 	SiteKFs         map[string][]KFAssume
 	Asserts         map[string][]*SExpr // site key -> assertions
@@ -483,6 +484,12 @@ type PureFunc struct {
 	Ret    *SType
 	Body   *SExpr
 	Pkg    string
+	// ghost functions (see ghostfn.go): may be recursive and read the heap; an uninterpreted symbol plus a definition
+	Ghost       bool
+	arrays      []string // heap arrays the body reads, in order (arguments of the symbol before the parameters)
+	ready       bool
+	discovering bool
+	recursive   bool
 }
 
 type ContractFile struct {
@@ -558,6 +565,15 @@ func parseContractFile(path, pkgPath string) (*ContractFile, error) {
 			pf.Pkg = pkgPath
 			cf.Pures = append(cf.Pures, pf)
 			cur = nil
+		case "ghost":
+			pf, err := parsePureFunc(rest)
+			if err != nil {
+				return nil, fail(err)
+			}
+			pf.Pkg = pkgPath
+			pf.Ghost = true
+			cf.Pures = append(cf.Pures, pf)
+			cur = nil
 		case "axiom":
 			name, ex := splitWord(rest)
 			name = strings.TrimSuffix(name, ":")
@@ -622,7 +638,7 @@ func parseFuncKey(s, pkgPath string) (string, error) {
 
 func parseClause(f *FuncSpec, word, rest string) error {
 	switch word {
-	case "requires", "ensures", "decreases":
+	case "requires", "ensures", "decreases", "proves":
 		e, err := parseSpecExpr(rest)
 		if err != nil {
 			return err
@@ -630,6 +646,14 @@ func parseClause(f *FuncSpec, word, rest string) error {
 		switch word {
 		case "requires":
 			f.Requires = append(f.Requires, e)
+		case "proves":
+			// a postcondition that is proved on the body but not handed to callers (other than the function itself,
+			// which needs it as induction hypothesis): keeps heavy specification vocabulary out of the callers' VCs
+			f.Ensures = append(f.Ensures, e)
+			if f.Local == nil {
+				f.Local = map[*SExpr]bool{}
+			}
+			f.Local[e] = true
 		case "ensures":
 			f.Ensures = append(f.Ensures, e)
 		case "decreases":
